@@ -66,6 +66,13 @@ def option_points(case, tier):
         dims = ['sort', 'cond', 'prec', 'tm'] if e == 'mem' else \
             ['cx', 'sort', 'cond', 'tm']
         pts = [dict(o, **fix) for o in A.option_product(dims, values)]
+    elif kind == 'xprod':
+        # every combination of the per-kind column selections (so that any
+        # mix-up between two pass-through keywords changes some verdict) +
+        # star over the remaining dimensions
+        dims = ['cd', 'ct', 'co'] + (['cx'] if ENTRY[e]['cx'] else [])
+        pts = list(A.option_product(dims, values)) + \
+            list(A.option_star(['sort', 'cond', 'prec', 'tm'], values))
     elif kind == 'default':
         pts = [dict(A.DEFAULT_OPTS)]
     elif kind == 'star':
@@ -95,10 +102,10 @@ def option_points(case, tier):
     out = []
     for o in pts:
         o = dict(o)
-        if e != 'chk':
+        if not ENTRY[e]['cx']:
             o['cx'] = 'none'       # only check_dataframe takes check_extra_cols
-        if e == 'disk':
-            o['tm'] = None         # assertOnDiskDataFrameCorrect has no type_matching
+        if not ENTRY[e]['tm']:
+            o['tm'] = None         # file-vs-file entry points: no type_matching
         out.append(o)
     return dedupe(out)
 
@@ -106,6 +113,35 @@ def option_points(case, tier):
 # ------------------------------------------------------------------- layers
 
 CSV_LABELS = ('int64', 'float64', 'str')
+
+# entry point -> file format of the reference, is the actual frame read from a
+# file too, does the entry point take type_matching / check_extra_cols
+ENTRY = {
+    'mem': {'fmt': None, 'afile': False, 'tm': True, 'cx': False},
+    'chk': {'fmt': None, 'afile': False, 'tm': True, 'cx': True},
+    'pq': {'fmt': 'parquet', 'afile': False, 'tm': True, 'cx': False},
+    'csv': {'fmt': 'csv', 'afile': False, 'tm': True, 'cx': False},
+    'disk': {'fmt': 'parquet', 'afile': True, 'tm': False, 'cx': False},
+    'disks': {'fmt': 'parquet', 'afile': True, 'tm': False, 'cx': False},
+    'ser': {'fmt': 'parquet', 'afile': True, 'tm': False, 'cx': False},
+    'dcsv': {'fmt': 'csv', 'afile': True, 'tm': False, 'cx': False},
+    'csvf': {'fmt': 'csv', 'afile': True, 'tm': False, 'cx': False},
+    'csvfs': {'fmt': 'csv', 'afile': True, 'tm': False, 'cx': False},
+}
+ENTRY_NAMES = {
+    'mem': 'assertDataFramesEqual',
+    'chk': 'PandasComparison.check_dataframe',
+    'pq': 'assertDataFrameCorrect(parquet reference)',
+    'csv': 'assertDataFrameCorrect(CSV reference)',
+    'disk': 'assertOnDiskDataFrameCorrect(parquet, parquet)',
+    'disks': 'assertOnDiskDataFramesCorrect([parquet..], [parquet..])',
+    'ser': 'PandasComparison.check_serialized_dataframe(parquet, parquet)',
+    'dcsv': 'assertOnDiskDataFrameCorrect(CSV, CSV)',
+    'csvf': 'assertCSVFileCorrect(CSV, CSV)',
+    'csvfs': 'assertCSVFilesCorrect([CSV..], [CSV..])',
+}
+PARQUET_ENTRIES = ('pq', 'disk', 'disks', 'ser')
+CSV_ENTRIES = ('csv', 'dcsv', 'csvf', 'csvfs')
 
 
 def csv_ok(frame):
@@ -222,6 +258,28 @@ def gen_cases(tier, layer):
                            'os': 'default'}
                     yield {'e': 'mem', 'f': fr, 'd': [d1, d2],
                            'os': 'default'}
+    elif layer == 'L1-xfiles':
+        # structural deviations (+ one cell per column) x every combination
+        # of check_data / check_types / check_order (/ check_extra_cols)
+        # through every file-based entry point and, for comparison, the two
+        # in-memory ones
+        fr = A.csv_triple()
+        for d in A.structural_plus_cells(fr):
+            for e in ('mem', 'chk') + CSV_ENTRIES + PARQUET_ENTRIES:
+                yield {'e': e, 'f': fr, 'd': [d], 'os': 'xprod'}
+        triples = A.COVER_TRIPLES if th else A.COVER_TRIPLES[2:3]
+        for fr in A.triple_frames(2, triples):
+            for d in A.structural_plus_cells(fr):
+                for e in (('mem', 'chk') if th else ()) + PARQUET_ENTRIES:
+                    yield {'e': e, 'f': fr, 'd': [d], 'os': 'xprod'}
+    elif layer == 'H2-histories':
+        for i in range(len(A.hist_menu('full'))):
+            yield {'k': 'hist', 'menu': 'full', 'prefix': [i]}
+    elif layer == 'H3-histories':
+        n = len(A.hist_menu('reduced'))
+        for i in range(n):
+            for j in range(n):
+                yield {'k': 'hist', 'menu': 'reduced', 'prefix': [i, j]}
     else:
         raise ValueError(layer)
 
@@ -280,9 +338,17 @@ class C05(Check):
              ('L1-one-deviation', 'one deviation, in-memory entry points'),
              ('L1-files', 'one deviation, parquet / CSV / on-disk entry '
               'points')]
+        L.append(('L1-xfiles', 'one structural deviation x every combination '
+                  'of the per-kind column selections, through all ten entry '
+                  'points (eight of them file based)'))
+        L.append(('H2-histories', 'E3: every sequence of two comparisons from '
+                  'the history menu on one ReferenceTest / PandasComparison '
+                  'object; each verdict = model = verdict on a fresh object'))
         if tier == 'thorough':
-            L.append(('L2-two-deviations', 'two deviations, '
-                      'assertDataFramesEqual'))
+            L.append(('L2-two-deviations', 'two deviations, in-memory entry '
+                      'points'))
+            L.append(('H3-histories', 'E3: every sequence of three '
+                      'comparisons from the reduced history menu'))
         return L
 
     def cases(self, tier, layer):
@@ -312,10 +378,10 @@ class C05(Check):
         self.saved_tempdir = tempfile.tempdir
         tempfile.tempdir = self.tmpdir
         ReferenceTest.regenerate.clear()
-        self.rt = ReferenceTest(_assert_fn)
-        self.rt.pandas.tmp_dir = self.tmpdir
-        self.rt.pandas.verbose = False
-        self.rt.files.tmp_dir = self.tmpdir
+        self.rt = self.new_rt()
+        self.menus = {'full': A.hist_menu('full'),
+                      'reduced': A.hist_menu('reduced')}
+        self.hist_cache = {}
         import mc.engine as engine
         self.src = os.path.join(os.path.abspath(engine.TDDA_SRC), 'tdda')
 
@@ -441,12 +507,21 @@ class C05(Check):
         fp = ''.join(ch for ch in line if ch.isalnum() or ch in '._')
         return '%s[%s]' % (fn, fp[:40])
 
-    def call(self, entry, adf, rdf, opts, anames, rnames, paths):
-        rt = self.rt
+    def new_rt(self):
+        rt = self.RT(_assert_fn)
+        rt.pandas.tmp_dir = self.tmpdir
+        rt.pandas.verbose = False
+        rt.files.tmp_dir = self.tmpdir
+        return rt
+
+    def call(self, entry, adf, rdf, opts, anames, rnames, paths, rt=None):
+        fresh_counter = rt is None
+        rt = rt or self.rt
         self.RT.regenerate.clear()
-        rt.pandas.tmp_file_counter = 0
+        if fresh_counter:
+            rt.pandas.tmp_file_counter = 0
         kw = self.kwargs(opts, rnames)
-        if entry != 'disk':
+        if ENTRY[entry]['tm']:
             kw['type_matching'] = opts['tm']
         out = io.StringIO()
         try:
@@ -463,9 +538,25 @@ class C05(Check):
                         raise AssertionFailure(r.diffs.message())
                 elif entry in ('pq', 'csv'):
                     rt.assertDataFrameCorrect(adf, paths['ref'], **kw)
-                elif entry == 'disk':
+                elif entry in ('disk', 'dcsv'):
                     rt.assertOnDiskDataFrameCorrect(paths['act'],
                                                     paths['ref'], **kw)
+                elif entry == 'csvf':
+                    rt.assertCSVFileCorrect(paths['act'], paths['ref'], **kw)
+                elif entry == 'csvfs':
+                    rt.assertCSVFilesCorrect([paths['act'], paths['ref']],
+                                             [paths['ref'], paths['ref']],
+                                             **kw)
+                elif entry == 'disks':
+                    rt.assertOnDiskDataFramesCorrect(
+                        [paths['ref'], paths['act']],
+                        [paths['ref'], paths['ref']], **kw)
+                elif entry == 'ser':
+                    r = rt.pandas.check_serialized_dataframe(
+                        paths['act'], paths['ref'], **kw)
+                    (failures, msgs) = r
+                    if failures:
+                        raise AssertionFailure(msgs.message())
                 else:
                     raise ValueError(entry)
             return ('pass', None, None)
@@ -478,53 +569,88 @@ class C05(Check):
             return ('error:%s@%s' % (type(e).__name__, self.where(e)),
                     repr(e)[:300], tb)
 
-    # ------------------------------------------------------------- run_case
+    # ------------------------------------------------------- frames for a case
 
-    def run_case(self, case):
-        R = Res()
+    def write_read(self, df, fmt, path):
+        """Write df with the harness's own writer and return what pandas
+        reads back (the frame the comparison will really be given)."""
         pd = self.pd
-        entry, frame, devs = case['e'], case['f'], case['d']
+        if fmt == 'parquet':
+            df.to_parquet(path)
+            return pd.read_parquet(path)
+        df.to_csv(path, index=False)
+        return pd.read_csv(path, index_col=None, keep_default_na=False,
+                           na_values=['', 'NaN', 'NULL'])
+
+    def prepare(self, entry, frame, devs, prefix=''):
+        """-> (None, skip tag, is_unspecified) or (dict, None, False)."""
+        E = ENTRY[entry]
+        fmt = E['fmt']
+        ext = '.parquet' if fmt == 'parquet' else '.csv'
         paths = {}
         ref_df = self.build(frame)
         ref_spec = frame
-        # ---- reference as the entry point will see it
-        if entry in ('pq', 'disk'):
-            paths['ref'] = os.path.join(self.sandbox, 'ref.parquet')
-            ref_df.to_parquet(paths['ref'])
-            ref_df = pd.read_parquet(paths['ref'])
-            ref_spec = self.spec_of(ref_df)
-        elif entry == 'csv':
-            paths['ref'] = os.path.join(self.sandbox, 'ref.csv')
-            ref_df.to_csv(paths['ref'], index=False)
-            ref_df = pd.read_csv(paths['ref'], index_col=None,
-                                 keep_default_na=False,
-                                 na_values=['', 'NaN', 'NULL'])
+        if fmt:
+            paths['ref'] = os.path.join(self.sandbox, prefix + 'ref' + ext)
+            ref_df = self.write_read(ref_df, fmt, paths['ref'])
             ref_spec = self.spec_of(ref_df)
         if ref_spec is None:
-            R.unspec += 1
-            R.out('%s:ref-outside-model' % entry)
-            return R
-        # ---- actual = reference + deviations
+            return None, 'ref-outside-model', True
         act_spec = ref_spec
         for d in devs:
             act_spec = A.apply_dev(act_spec, d)
             if act_spec is None:
-                R.out('%s:deviation-not-applicable' % entry)
-                return R
+                return None, 'deviation-not-applicable', False
         act_df = self.build(act_spec)
-        if entry == 'disk':
+        if E['afile']:
             if not act_spec:
-                R.out('disk:no-columns')
-                return R
-            paths['act'] = os.path.join(self.sandbox, 'act.parquet')
-            act_df.to_parquet(paths['act'])
-            act_spec = self.spec_of(pd.read_parquet(paths['act']))
+                return None, 'no-columns', False
+            paths['act'] = os.path.join(self.sandbox, prefix + 'act' + ext)
+            act_df = self.write_read(act_df, fmt, paths['act'])
+            act_spec = self.spec_of(act_df)
             if act_spec is None:
-                R.unspec += 1
-                R.out('disk:actual-outside-model')
-                return R
-        anames = [c[0] for c in act_spec]
-        rnames = [c[0] for c in ref_spec]
+                return None, 'actual-outside-model', True
+        return ({'ref_spec': ref_spec, 'act_spec': act_spec,
+                 'ref_df': ref_df, 'act_df': act_df, 'paths': paths,
+                 'anames': [c[0] for c in act_spec],
+                 'rnames': [c[0] for c in ref_spec]}, None, False)
+
+    def judge(self, R, entry, P, devs, devk, label, opts, want, why, got,
+              msg, tb, sub):
+        detail = {'entry': entry, 'reference': P['ref_spec'],
+                  'actual': P['act_spec'], 'deviations': devs,
+                  'options': opts, 'model': [want, why],
+                  'observed': got, 'message': (msg or '')[:400]}
+        if got.startswith('error:'):
+            detail['traceback'] = tb
+            R.viol('internal:%s' % got[6:],
+                   'fails-as-assertion-never-internal-error'
+                   if want == M.FAIL else 'copy-or-equal-frames-pass',
+                   detail, sub)
+        elif want == M.FAIL and got == 'pass':
+            R.viol('missed:%s:%s:%s' % ('+'.join(why), label, entry),
+                   'difference-on-checked-aspect-fails', detail, sub)
+        elif want == M.PASS and got == 'assert':
+            R.viol('spurious:%s:%s:%s' % (devk, label, entry),
+                   'agreeing-on-checked-aspects-passes', detail, sub)
+        elif got == 'assert' and not (isinstance(msg, str) and msg.strip()):
+            R.viol('no-description:%s:%s' % ('+'.join(why), entry),
+                   'failure-carries-description', detail, sub)
+
+    # ------------------------------------------------------------- run_case
+
+    def run_case(self, case):
+        if case.get('k') == 'hist':
+            return self.run_history_case(case)
+        R = Res()
+        entry, frame, devs = case['e'], case['f'], case['d']
+        P, skip, unspec = self.prepare(entry, frame, devs)
+        if P is None:
+            R.unspec += 1 if unspec else 0
+            R.out('%s:%s' % (entry, skip))
+            return R
+        ref_spec, act_spec = P['ref_spec'], P['act_spec']
+        anames, rnames = P['anames'], P['rnames']
         devk = '+'.join(A.dev_kind(d) for d in devs) or 'copy'
         touched = []
         for d in devs:
@@ -544,9 +670,10 @@ class C05(Check):
                 R.out('%s:%s:condition-not-evaluable' % (entry, devk))
                 continue
             want, why = M.verdict(act_spec, ref_spec, opts)
-            a = act_df.copy(deep=True)
-            r = ref_df.copy(deep=True)
-            got, msg, tb = self.call(entry, a, r, opts, anames, rnames, paths)
+            a = P['act_df'].copy(deep=True)
+            r = P['ref_df'].copy(deep=True)
+            got, msg, tb = self.call(entry, a, r, opts, anames, rnames,
+                                     P['paths'])
             R.ev()
             R.out('%s:%s:%s[%s]->%s' % (entry, devk, want, '+'.join(why),
                                         got))
@@ -555,26 +682,95 @@ class C05(Check):
                 continue
             if ncells or devs:
                 R.nontrivial = True
-            detail = {'entry': entry, 'reference': ref_spec,
-                      'actual': act_spec, 'deviations': devs,
-                      'options': opts, 'model': [want, why],
-                      'observed': got, 'message': (msg or '')[:400]}
-            if got.startswith('error:'):
-                detail['traceback'] = tb
-                R.viol('internal:%s' % got[6:],
-                       'fails-as-assertion-never-internal-error'
-                       if want == M.FAIL else 'copy-or-equal-frames-pass',
-                       detail, sub)
-            elif want == M.FAIL and got == 'pass':
-                R.viol('missed:%s:%s:%s' % ('+'.join(why), label, entry),
-                       'difference-on-checked-aspect-fails', detail, sub)
-            elif want == M.PASS and got == 'assert':
-                R.viol('spurious:%s:%s:%s' % (devk, label, entry),
-                       'agreeing-on-checked-aspects-passes', detail, sub)
-            elif got == 'assert' and not (isinstance(msg, str)
-                                          and msg.strip()):
-                R.viol('no-description:%s:%s' % ('+'.join(why), entry),
-                       'failure-carries-description', detail, sub)
+            self.judge(R, entry, P, devs, devk, label, opts, want, why, got,
+                       msg, tb, sub)
+        return R
+
+    # ------------------------------------------------------ histories (E3)
+
+    def hist_op(self, mname, i):
+        """Prepared frames / files, model verdict and fresh-object verdict of
+        menu op i (cached for the life of the worker: they are functions of
+        the op alone)."""
+        key = (mname, i)
+        cache = self.hist_cache
+        menu = self.menus[mname]
+        if key not in cache:
+            entry, pair, opts = menu[i]
+            P, skip, unspec = self.prepare(entry, A.HIST_REF,
+                                           A.HIST_PAIRS[pair],
+                                           prefix='h%s%d_' % (mname[0], i))
+            if P is None:
+                raise RuntimeError('history op cannot be prepared: %r %s'
+                                   % (menu[i], skip))
+            want, why = M.verdict(P['act_spec'], P['ref_spec'], opts)
+            fresh = self.exec_op(self.new_rt(), menu[i], P)
+            cache[key] = (P, want, why, fresh)
+        return cache[key]
+
+    def exec_op(self, rt, op, P):
+        entry, pair, opts = op
+        return self.call(entry, P['act_df'].copy(deep=True),
+                         P['ref_df'].copy(deep=True), opts, P['anames'],
+                         P['rnames'], P['paths'], rt=rt)
+
+    def run_history_case(self, case):
+        """Every history  prefix + [j]  (depth 2) or prefix + [j]  with a
+        two-op prefix (depth 3) on ONE ReferenceTest / PandasComparison
+        object; the state is the history: it is rebuilt from a fresh object
+        every time."""
+        R = Res()
+        menu = self.menus[case['menu']]
+        prefix = case['prefix']
+        R.states = 0
+        for j in range(len(menu)):
+            hist = prefix + [j]
+            rt = self.new_rt()
+            R.states += 1
+            nondefault = set()
+            for pos, i in enumerate(hist):
+                op = menu[i]
+                entry, pair, opts = op
+                P, want, why, fresh = self.hist_op(case['menu'], i)
+                got, msg, tb = self.exec_op(rt, op, P)
+                R.ev()
+                devs = A.HIST_PAIRS[pair]
+                sub = {'history': [[menu[h][0], menu[h][1],
+                                    opt_key(menu[h][2])] for h in hist],
+                       'position': pos}
+                if pos == len(hist) - 1:
+                    R.out('hist:%s:%s:%s[%s]->%s/fresh=%s'
+                          % (entry, pair, want, '+'.join(why), got[:40],
+                             fresh[0][:40]))
+                if got != fresh[0] and pos > 0:
+                    # differential oracle: same op, fresh object
+                    R.nontrivial = True
+                    if got.startswith('error:'):
+                        what = 'internal'
+                    elif got == 'pass':
+                        what = 'missed'
+                    else:
+                        what = 'spurious'
+                    after = '+'.join(sorted(nondefault)) or 'default'
+                    R.viol('history:%s:%s:after[%s]' % (what, pair, after),
+                           'verdict-depends-only-on-frames-and-options',
+                           {'history': sub['history'], 'position': pos,
+                            'entry': entry, 'reference': P['ref_spec'],
+                            'actual': P['act_spec'], 'options': opts,
+                            'on_fresh_object': fresh[0],
+                            'in_history': got, 'model': [want, why],
+                            'message': (msg or '')[:300],
+                            'traceback': tb}, sub)
+                elif want != M.UNSPEC:
+                    R.nontrivial = True
+                    if pos == len(hist) - 1:
+                        self.judge(R, entry, P, devs, pair, 'hist', opts,
+                                   want, why, got, msg, tb, sub)
+                else:
+                    R.unspec += 1 if pos == len(hist) - 1 else 0
+                for d in A.DIMS:
+                    if opts[d] != A.HIST_DEFAULT[d]:
+                        nondefault.add(d)
         return R
 
 
